@@ -14,7 +14,19 @@ def impl_one(case):
     from socialchoicekit.deterministic_allocation import MaximumWeightMatching
     from socialchoicekit.profile_utils import ValuationProfile
     W = to_np(case["W"])
-    out = MaximumWeightMatching(zero_indexed=case.get("zero", True)).scf(ValuationProfile.of(W))
+    rule = MaximumWeightMatching(zero_indexed=case.get("zero", True))
+    if case.get("pre") is not None:
+        # the same rule object and the same buffer are first used for another matrix, which is then overwritten in place
+        import numpy as np
+        buf = np.array(to_np(case["pre"]))
+        try:
+            rule.scf(ValuationProfile.of(buf))
+        except Exception:
+            pass
+        buf[...] = W
+        out = rule.scf(ValuationProfile.of(buf))
+    else:
+        out = rule.scf(ValuationProfile.of(W))
     return {"cols": [int(x) for x in out]}
 
 
@@ -74,15 +86,17 @@ def judge(R, case, res, cert_ans):
     ref = A.hungarian_max(F, n)
     R.count(tag)
     R.count(f"n={n}")
+    if case.get("pre") is not None:
+        R.count("rule_object_and_buffer_reused_after_in_place_overwrite")
     has_nan = any(v is None for row in W for v in row)
     if "hang" in res:
-        R.violation("property_violation", "termination", ENTRY, {"W": W}, impl_output=f"no result within {res.get('deadline_s')} s",
+        R.violation("property_violation", "termination", ENTRY, {"W": W, "pre": case.get("pre")}, impl_output=f"no result within {res.get('deadline_s')} s",
                     oracle="non-termination (supervised worker killed)", config={"zero_indexed": fixer == 0})
         return
     if ref is None:
         R.count("infeasible")
         if "exc" not in res:
-            R.violation("property_violation", "raises when no assignment of acceptable pairs exists", ENTRY, {"W": W}, impl_output=res,
+            R.violation("property_violation", "raises when no assignment of acceptable pairs exists", ENTRY, {"W": W, "pre": case.get("pre")}, impl_output=res,
                         oracle={"hall_violator": A.hall_violator([[v is not None for v in r] for r in W], n)})
             return
         R.case(nontrivial_key=json.dumps(W), sample=None)
@@ -91,18 +105,18 @@ def judge(R, case, res, cert_ans):
         return
     sigma, u, v, opt = ref
     if "exc" in res:
-        R.violation("property_violation", "returns an assignment whenever one exists", ENTRY, {"W": W}, impl_output=res,
+        R.violation("property_violation", "returns an assignment whenever one exists", ENTRY, {"W": W, "pre": case.get("pre")}, impl_output=res,
                     oracle={"an_optimal_assignment": sigma, "value": fr(opt)})
         return
     cols = [c - fixer for c in res["cols"]]
     if sorted(cols) != list(range(n)) or any(F[i][cols[i]] is None for i in range(n)):
-        R.violation("property_violation", "one-to-one assignment using only acceptable pairs", ENTRY, {"W": W}, impl_output=res["cols"],
+        R.violation("property_violation", "one-to-one assignment using only acceptable pairs", ENTRY, {"W": W, "pre": case.get("pre")}, impl_output=res["cols"],
                     oracle="not a permutation of the items / uses a NaN pair")
         return
     val = sum(F[i][cols[i]] for i in range(n))
     tol = Fraction(0) if exact_data(W) else Fraction(1, 10 ** 9) * max(1, abs(opt))
     if opt - val > tol:
-        R.violation("property_violation", "total utility equals the maximum over all acceptable assignments", ENTRY, {"W": W},
+        R.violation("property_violation", "total utility equals the maximum over all acceptable assignments", ENTRY, {"W": W, "pre": case.get("pre")},
                     impl_output=res["cols"], oracle={"impl_value": fr(val), "better_assignment": [s + fixer for s in sigma], "its_value": fr(opt)})
         return
     nontriv = n >= 3 and (has_nan or len(set(x for row in F for x in row if x is not None)) < n * n)
@@ -168,10 +182,13 @@ def run(R):
     for t in range(cnt):
         n = R.rng.randint(1, nmax)
         W, tag = gen(R, n)
-        cases.append({"W": W, "n": n, "zero": R.rng.random() < 0.5, "tag": tag})
+        c = {"W": W, "n": n, "zero": R.rng.random() < 0.5, "tag": tag}
+        if R.rng.random() < 0.25:
+            c["pre"] = gen(R, n)[0]
+        cases.append(c)
     run_cases(R, cases, 20.0 if R.thorough else 5.0)
 
 
 def replay(R, rep):
     W = rep["input"]["W"]
-    run_cases(R, [{"W": W, "n": len(W), "zero": rep.get("config", {}).get("zero_indexed", True), "tag": "replay"}], 10.0)
+    run_cases(R, [{"W": W, "n": len(W), "zero": rep.get("config", {}).get("zero_indexed", True), "tag": "replay", "pre": rep["input"].get("pre")}], 10.0)
